@@ -6,7 +6,8 @@
     ([ms], [ms_err], [ms_valid] likewise on trees, errors and validated grammars).  No pass of
     the model of [ValidGrammar::from_grammar] inspects a span: the mapping commutes with it. *)
 From CG Require Import Base.Prelude Model.Ast Model.Check.
-From CG Require Import Proofs.CheckLemmas Proofs.CheckSpans.
+From CG Require Import Proofs.CheckLemmas Proofs.CheckSpans Proofs.CheckOrder.
+From Coq Require Import Permutation.
 From CGgen Require Import Consts.
 
 Theorem C14_spans_ignored :
@@ -47,6 +48,24 @@ Check C14_layout_check :
                 exists e2, from_grammar builtins g2 sh = Err e2 /\ ms_err erase e1 = ms_err erase e2).
 Print Assumptions C14_layout_check.
 
+(** The order of the statements does not matter as long as the call variants keep their
+    relative order (their order is the order of the alternatives of the root): a permuted
+    grammar is accepted alike, with the same command and the same validated expression. *)
+Theorem C14_definition_order :
+  forall builtins sh g g',
+    Permutation g g' -> call_variants g = call_variants g' ->
+    forall v, from_grammar builtins g sh = Ok v ->
+              exists v', from_grammar builtins g' sh = Ok v' /\ v_command v' = v_command v
+                         /\ v_expr v' = v_expr v.
+Proof. exact definition_order. Qed.
+Check C14_definition_order :
+  forall builtins sh g g',
+    Permutation g g' -> call_variants g = call_variants g' ->
+    forall v, from_grammar builtins g sh = Ok v ->
+              exists v', from_grammar builtins g' sh = Ok v' /\ v_command v' = v_command v
+                         /\ v_expr v' = v_expr v.
+Print Assumptions C14_definition_order.
+
 (** Non-vacuity: the same grammar laid out on one line and on several lines. *)
 Definition ex_g1 : grammar :=
   [ CallVariant "cmd" (mkspan 1 1 4)
@@ -62,6 +81,20 @@ Definition ex_g2 : grammar :=
                                    (mkspan 4 2 9)) 0 (mkspan 4 2 9)] (mkspan 3 1 9));
     NontermDef "A" (mkspan 7 1 4) None
       (Fallback [Terminal "x" (Some "d") 0 (mkspan 9 1 2); NontermRef "PATH" 0 (mkspan 11 4 10)] (mkspan 9 1 10)) ].
+Definition ex_g3 : grammar :=
+  [ NontermDef "B" (mkspan 3 1 2) None (NontermRef "C" 0 (mkspan 3 3 4));
+    CallVariant "cmd" (mkspan 1 1 4) (NontermRef "A" 0 (mkspan 1 5 8));
+    NontermDef "C" (mkspan 4 1 2) None (Terminal "c" None 0 (mkspan 4 3 4));
+    NontermDef "A" (mkspan 2 1 2) None (Optional (NontermRef "B" 0 (mkspan 2 3 4)) (mkspan 2 2 5)) ].
+Example ex_C14_order_inhabited :
+  Permutation ex_g3 (rev ex_g3) /\ call_variants ex_g3 = call_variants (rev ex_g3)
+  /\ rev ex_g3 <> ex_g3 /\ is_ok (from_grammar builtins ex_g3 Fish) = true.
+Proof.
+  split; [apply Permutation_rev|]. split; [reflexivity|]. split; [intro H; discriminate H|].
+  vm_compute. reflexivity.
+Qed.
+Print Assumptions ex_C14_order_inhabited.
+
 Example ex_C14_inhabited :
   same_shape ex_g1 ex_g2 /\ ex_g1 <> ex_g2
   /\ is_ok (from_grammar builtins ex_g1 Bash) = true
